@@ -325,7 +325,82 @@ func runC13(r *Run) {
 	// leave the default store for other users of this process
 	web.InitStore(keyA, keyB, "cookie", 0)
 	r.extra["model_disagreements"] = drift
+	c13Binary(r)
 	if drift > 0 && !r.HasViolation() {
 		r.Unproven(fmt.Sprintf("correspondence Oidc.callback = HandleCallback broke on %d flows (status codes differ) with no wrongly authenticated session found", drift), first)
+	}
+}
+
+// c13Binary: two real gateway processes started from the same configuration (no session keys
+// configured, one temporary directory, as two instances on one machine have). A browser logs in at
+// A; its session cookie, presented to B, must not yield an authenticated session there — and A
+// restarted must not honour it either.
+func c13Binary(r *Run) {
+	if _, err := os.Stat(gwBinaryPath()); err != nil {
+		r.Note("gateway binary unavailable: binary tier skipped")
+		return
+	}
+	r.TierRan("binary")
+	dir := filepath.Join(verifRoot, "work", fmt.Sprintf("c13b-%d", os.Getpid()))
+	os.MkdirAll(dir, 0o755)
+	defer os.RemoveAll(dir)
+	idp := newFakeIdP()
+	defer idp.close()
+	for _, store := range []string{"cookie", "file"} {
+		mk := func() *gwProc {
+			port := freePort()
+			ta := true
+			y := &gwYaml{port: port, tlsOn: false, auth: []string{"openid"}, hosts: []string{"10.0.0.1:3389"}, idpURL: idp.srv.URL, tokenAuth: &ta, keys: map[string]string{}, extraServer: []string{"sessionstore: " + store}}
+			return startBinary(dir, y.render(), nil, port, false)
+		}
+		a, b := mk(), mk()
+		if !a.running() || !b.running() {
+			r.Note("binary did not start: " + tail(a.stderr.String()+b.stderr.String(), 300))
+			a.stop()
+			b.stop()
+			continue
+		}
+		jar, _ := cookiejar.New(nil)
+		cl := &http.Client{Jar: jar, CheckRedirect: func(*http.Request, []*http.Request) error { return http.ErrUseLastResponse }, Timeout: 8 * time.Second}
+		ua, ub := fmt.Sprintf("http://127.0.0.1:%d", a.port), fmt.Sprintf("http://127.0.0.1:%d", b.port)
+		if loginAndDownload(cl, ua, idp) == "" {
+			r.Inconclusive()
+			a.stop()
+			b.stop()
+			continue
+		}
+		pu, _ := url.Parse(ua)
+		present := func(base string) (int, string) {
+			req, _ := http.NewRequest("GET", base+"/connect", nil)
+			for _, ck := range jar.Cookies(pu) {
+				req.AddCookie(&http.Cookie{Name: ck.Name, Value: ck.Value})
+			}
+			resp, err := (&http.Client{CheckRedirect: func(*http.Request, []*http.Request) error { return http.ErrUseLastResponse }, Timeout: 8 * time.Second}).Do(req)
+			if err != nil {
+				return -1, err.Error()
+			}
+			defer resp.Body.Close()
+			b, _ := io.ReadAll(resp.Body)
+			return resp.StatusCode, string(b)
+		}
+		stA, _ := present(ua)
+		stB, bodyB := present(ub)
+		a.stop()
+		a2 := mk()
+		stA2, bodyA2 := -1, ""
+		if a2.running() {
+			stA2, bodyA2 = present(fmt.Sprintf("http://127.0.0.1:%d", a2.port))
+		}
+		a2.stop()
+		b.stop()
+		r.Count("binary-cross-instance:" + store)
+		r.Dist("binary:" + store)
+		rep := fmt.Sprintf("session store %s, no session keys configured, both instances share one temporary directory\nlogin at A; the cookie at A: %d; at B: %d; at a restarted instance: %d\n", store, stA, stB, stA2)
+		if stA != 200 {
+			r.Violation("c13-login-lost", "a session that completed the login is not authenticated at the instance that logged it in", rep)
+		}
+		if stB == 200 && strings.Contains(bodyB, "gatewayaccesstoken") || stA2 == 200 && strings.Contains(bodyA2, "gatewayaccesstoken") {
+			r.Violation("c13-forged-cookie", "an altered session cookie yields an authenticated session", rep+"a session cookie that this gateway process did not produce was honoured (keys generated at start-up are shared between processes)\n")
+		}
 	}
 }
